@@ -125,46 +125,46 @@ theorem from_end_eq_reverse (len : Len) (cs : List Pt) (d : Rat) :
 /-! ### arc-length characterisation and the start/end symmetry -/
 
 private theorem segs_head {cs : List Pt} {a b : Pt} {rest : List (Pt × Pt)}
-    (h : segs cs = (a, b) :: rest) : cs.head? = some a := by
+    (h : Interp.segs cs = (a, b) :: rest) : cs.head? = some a := by
   match cs, h with
-  | x :: y :: t, h => simp only [segs, List.cons.injEq, Prod.mk.injEq] at h; simp [h.1.1]
+  | x :: y :: t, h => simp only [Interp.segs, List.cons.injEq, Prod.mk.injEq] at h; simp [h.1.1]
 
 private theorem segs_last : ∀ {cs : List Pt} {init : List (Pt × Pt)} {a b : Pt},
-    segs cs = init ++ [(a, b)] → cs.getLast? = some b
-  | [], init, a, b, h => by simp [segs] at h
-  | [_], init, a, b, h => by simp [segs] at h
+    Interp.segs cs = init ++ [(a, b)] → cs.getLast? = some b
+  | [], init, a, b, h => by simp [Interp.segs] at h
+  | [_], init, a, b, h => by simp [Interp.segs] at h
   | [x, y], init, a, b, h => by
     cases init with
-    | nil => simp only [segs, List.nil_append, List.cons.injEq, Prod.mk.injEq, and_true] at h; simp [h.2]
-    | cons i is => simp [segs] at h
+    | nil => simp only [Interp.segs, List.nil_append, List.cons.injEq, Prod.mk.injEq, and_true] at h; simp [h.2]
+    | cons i is => simp [Interp.segs] at h
   | x :: y :: z :: t, init, a, b, h => by
     cases init with
-    | nil => simp [segs] at h
+    | nil => simp [Interp.segs] at h
     | cons i is =>
-      simp only [segs, List.cons_append, List.cons.injEq] at h
-      have := segs_last (cs := y :: z :: t) (init := is) (a := a) (b := b) (by simpa [segs] using h.2)
+      simp only [Interp.segs, List.cons_append, List.cons.injEq] at h
+      have := segs_last (cs := y :: z :: t) (init := is) (a := a) (b := b) (by simpa [Interp.segs] using h.2)
       simpa using this
 
 /-- [T] `lies on the line at arc length d`: for `0 ≤ d ≤ length` (and at least one segment) the
 distance form returns a point that is at arc length `d` on the chain of segments (`OnSegs`: on
 a segment whose cumulative interval contains `d`, at `len`-distance `d − Σ before` from its
 start); by `onSegs_unique` that point is unique. -/
-theorem ls_distance_onSegs {len : Len} (hl : LenAx len) (cs : List Pt) (d : Rat) (hne : segs cs ≠ [])
+theorem ls_distance_onSegs {len : Len} (hl : LenAx len) (cs : List Pt) (d : Rat) (hne : Interp.segs cs ≠ [])
     (h0 : 0 ≤ d) (h1 : d ≤ lsLength len cs) :
-    ∃ p, lsPointAtDistanceFromStart len cs d = some p ∧ OnSegs len (segs cs) d p := by
+    ∃ p, lsPointAtDistanceFromStart len cs d = some p ∧ OnSegs len (Interp.segs cs) d p := by
   unfold lsPointAtDistanceFromStart
   by_cases hd : d ≤ 0
   · have hd0 : d = 0 := le_antisymm hd h0
     rw [if_pos hd]
-    match hs : segs cs, hne with
+    match hs : Interp.segs cs, hne with
     | (a, b) :: rest, _ =>
       exact ⟨a, segs_head hs, Or.inl ⟨h0, by rw [hd0]; exact hl.nonneg a b, by rw [hd0, pdb_zero]⟩⟩
   · rw [if_neg hd]
     have hpos : 0 < d := not_le.1 hd
-    match hw : walk len (segs cs) d with
-    | some (a, b, r) => exact ⟨_, rfl, walk_onSegs (segs cs) d hpos hw⟩
+    match hw : walk len (Interp.segs cs) d with
+    | some (a, b, r) => exact ⟨_, rfl, walk_onSegs (Interp.segs cs) d hpos hw⟩
     | none =>
-      have := walk_none (segs cs) d hpos hw
+      have := walk_none (Interp.segs cs) d hpos hw
       unfold lsLength at h1
       linarith
 
@@ -173,7 +173,7 @@ theorem ls_distance_onSegs {len : Len} (hl : LenAx len) (cs : List Pt) (d : Rat)
 the last coordinate because everything after it has zero length). -/
 theorem ls_distance_clamp_hi {len : Len} (hl : LenAx len) (cs : List Pt) (d : Rat)
     (h : lsLength len cs ≤ d) : lsPointAtDistanceFromStart len cs d = cs.getLast? := by
-  by_cases hne : segs cs = []
+  by_cases hne : Interp.segs cs = []
   · -- no segment: at most one coordinate
     unfold lsPointAtDistanceFromStart
     rw [hne]
@@ -189,10 +189,10 @@ theorem ls_distance_clamp_hi {len : Len} (hl : LenAx len) (cs : List Pt) (d : Ra
       obtain ⟨p, hp, hon⟩ := ls_distance_onSegs hl cs d hne (by linarith) (le_of_eq hd)
       rw [hp]
       -- the last coordinate is also at arc length `length`
-      obtain ⟨init, s, hs⟩ : ∃ init s, segs cs = init ++ [s] :=
-        ⟨(segs cs).dropLast, (segs cs).getLast hne, (List.dropLast_append_getLast hne).symm⟩
+      obtain ⟨init, s, hs⟩ : ∃ init s, Interp.segs cs = init ++ [s] :=
+        ⟨(Interp.segs cs).dropLast, (Interp.segs cs).getLast hne, (List.dropLast_append_getLast hne).symm⟩
       obtain ⟨a, b⟩ := s
-      have hlast : OnSegs len (segs cs) d b := by
+      have hlast : OnSegs len (Interp.segs cs) d b := by
         rw [hs, onSegs_append]
         right
         have : d - sumLen len init = len a b := by
@@ -208,20 +208,20 @@ theorem distance_start_end {len : Len} (hl : LenAx len) (cs : List Pt) (d : Rat)
     (h0 : 0 ≤ d) (h1 : d ≤ lsLength len cs) :
     lsPointAtDistanceFromStart len cs d = lsPointAtDistanceFromEnd len cs (lsLength len cs - d) := by
   rw [from_end_eq_reverse]
-  by_cases hne : segs cs = []
+  by_cases hne : Interp.segs cs = []
   · match cs, hne with
-    | [], _ => simp [lsPointAtDistanceFromStart, walk, segs]
-    | [a], _ => simp [lsPointAtDistanceFromStart, walk, segs]
-  · have hrev : segs cs.reverse = flipRev (segs cs) := segs_reverse cs
+    | [], _ => simp [lsPointAtDistanceFromStart, walk, Interp.segs]
+    | [a], _ => simp [lsPointAtDistanceFromStart, walk, Interp.segs]
+  · have hrev : Interp.segs cs.reverse = flipRev (Interp.segs cs) := segs_reverse cs
     have hLrev : lsLength len cs.reverse = lsLength len cs := by
       unfold lsLength; rw [hrev, sumLen_flipRev hl]
-    have hne' : segs cs.reverse ≠ [] := by
+    have hne' : Interp.segs cs.reverse ≠ [] := by
       rw [hrev]; unfold flipRev; simpa using hne
     obtain ⟨p, hp, hon⟩ := ls_distance_onSegs hl cs d hne h0 h1
     obtain ⟨q, hq, hon'⟩ := ls_distance_onSegs hl cs.reverse (lsLength len cs - d) hne'
       (by linarith) (by rw [hLrev]; linarith)
     rw [hp, hq]
-    have := onSegs_flipRev hl (segs cs) d p hon
+    have := onSegs_flipRev hl (Interp.segs cs) d p hon
     rw [← hrev] at this
     rw [onSegs_unique hl _ _ p q (chain_segs cs.reverse) this hon']
 
@@ -374,18 +374,18 @@ private theorem densifyLS_cons2 (len : Len) (a b : Pt) (rest : List Pt) (mx : Ra
   rw [List.getLast?_cons_cons]
   cases h : (b :: rest).getLast? with
   | none => simp at h
-  | some z => simp [segs, densifySegs]
+  | some z => simp [Interp.segs, densifySegs]
 
 private theorem densifyLS_head (len : Len) (b : Pt) (rest : List Pt) (mx : Rat) :
     ∃ Y, densifyLS len (b :: rest) mx = b :: Y := by
   cases rest with
-  | nil => exact ⟨[], by simp [densifyLS, segs, densifySegs]⟩
+  | nil => exact ⟨[], by simp [densifyLS, Interp.segs, densifySegs]⟩
   | cons c rest => exact ⟨_, densifyLS_cons2 len b c rest mx⟩
 
 /-- [T] `densify_sublist`: every original vertex is kept, in order. -/
 theorem densify_sublist (len : Len) (mx : Rat) : ∀ cs : List Pt, cs.Sublist (densifyLS len cs mx)
   | [] => by simp [densifyLS]
-  | [a] => by simp [densifyLS, segs, densifySegs]
+  | [a] => by simp [densifyLS, Interp.segs, densifySegs]
   | a :: b :: rest => by
     rw [densifyLS_cons2]
     exact List.Sublist.cons_cons a
@@ -396,7 +396,7 @@ theorem densify_sublist (len : Len) (mx : Rat) : ∀ cs : List Pt, cs.Sublist (d
 theorem densify_ends (len : Len) (mx : Rat) : ∀ cs : List Pt,
     (densifyLS len cs mx).head? = cs.head? ∧ (densifyLS len cs mx).getLast? = cs.getLast?
   | [] => by simp [densifyLS]
-  | [a] => by simp [densifyLS, segs, densifySegs]
+  | [a] => by simp [densifyLS, Interp.segs, densifySegs]
   | a :: b :: rest => by
     obtain ⟨Y, hY⟩ := densifyLS_head len b rest mx
     have ih := (densify_ends len mx (b :: rest)).2
@@ -445,11 +445,11 @@ private theorem densifyLine_eq_map (len : Len) (a b : Pt) (mx : Rat) (hn : 0 < n
 
 /-- [T] densifying a Line: no piece is longer than `max`. -/
 theorem densify_line_pieces {len : Len} (hl : LenAx len) (hh : LenLerp len) (a b : Pt) (mx : Rat)
-    (hmx : 0 < mx) : ∀ s ∈ segs (densifyLine len a b mx), len s.1 s.2 ≤ mx := by
+    (hmx : 0 < mx) : ∀ s ∈ Interp.segs (densifyLine len a b mx), len s.1 s.2 ≤ mx := by
   by_cases h0 : len a b = 0
   · intro s hs
     simp only [densifyLine, densify_between_zero len a b mx h0, List.append_nil, List.singleton_append,
-      segs, List.mem_singleton] at hs
+      Interp.segs, List.mem_singleton] at hs
     rw [hs, h0]; exact le_of_lt hmx
   · have hpos : 0 < len a b := lt_of_le_of_ne (hl.nonneg a b) (Ne.symm h0)
     obtain ⟨hn, hb, _⟩ := densify_piece_bound hl a b mx hmx hpos
@@ -466,9 +466,9 @@ theorem densify_line_pieces {len : Len} (hl : LenAx len) (hh : LenLerp len) (a b
 
 /-- [T] densifying a Line leaves its length unchanged. -/
 theorem densify_line_length {len : Len} (hl : LenAx len) (hh : LenLerp len) (a b : Pt) (mx : Rat)
-    (hmx : 0 < mx) : sumLen len (segs (densifyLine len a b mx)) = len a b := by
+    (hmx : 0 < mx) : sumLen len (Interp.segs (densifyLine len a b mx)) = len a b := by
   by_cases h0 : len a b = 0
-  · simp [densifyLine, densify_between_zero len a b mx h0, segs, sumLen]
+  · simp [densifyLine, densify_between_zero len a b mx h0, Interp.segs, sumLen]
   · have hpos : 0 < len a b := lt_of_le_of_ne (hl.nonneg a b) (Ne.symm h0)
     obtain ⟨hn, _, _⟩ := densify_piece_bound hl a b mx hmx hpos
     have hnq : (0 : Rat) < (numSegments len a b mx : Rat) := by exact_mod_cast hn
@@ -483,8 +483,8 @@ theorem densify_line_length {len : Len} (hl : LenAx len) (hh : LenLerp len) (a b
       push_cast; field_simp; ring
 
 private theorem segs_densifyLS_cons2 (len : Len) (a b : Pt) (rest : List Pt) (mx : Rat) :
-    segs (densifyLS len (a :: b :: rest) mx) =
-      segs (densifyLine len a b mx) ++ segs (densifyLS len (b :: rest) mx) := by
+    Interp.segs (densifyLS len (a :: b :: rest) mx) =
+      Interp.segs (densifyLine len a b mx) ++ Interp.segs (densifyLS len (b :: rest) mx) := by
   obtain ⟨Y, hY⟩ := densifyLS_head len b rest mx
   rw [densifyLS_cons2, hY]
   have e : a :: (densifyBetween len a b mx ++ b :: Y) = (a :: densifyBetween len a b mx) ++ b :: Y := rfl
@@ -493,9 +493,9 @@ private theorem segs_densifyLS_cons2 (len : Len) (a b : Pt) (rest : List Pt) (mx
 
 /-- [T] `densify(max)` on a LineString produces no segment longer than `max`. -/
 theorem densify_ls_pieces {len : Len} (hl : LenAx len) (hh : LenLerp len) (mx : Rat) (hmx : 0 < mx) :
-    ∀ cs : List Pt, ∀ s ∈ segs (densifyLS len cs mx), len s.1 s.2 ≤ mx
-  | [], s, hs => by simp [densifyLS, segs] at hs
-  | [a], s, hs => by simp [densifyLS, segs, densifySegs] at hs
+    ∀ cs : List Pt, ∀ s ∈ Interp.segs (densifyLS len cs mx), len s.1 s.2 ≤ mx
+  | [], s, hs => by simp [densifyLS, Interp.segs] at hs
+  | [a], s, hs => by simp [densifyLS, Interp.segs, densifySegs] at hs
   | a :: b :: rest, s, hs => by
     rw [segs_densifyLS_cons2, List.mem_append] at hs
     rcases hs with hs | hs
@@ -506,12 +506,12 @@ theorem densify_ls_pieces {len : Len} (hl : LenAx len) (hh : LenLerp len) (mx : 
 theorem densify_ls_length {len : Len} (hl : LenAx len) (hh : LenLerp len) (mx : Rat) (hmx : 0 < mx) :
     ∀ cs : List Pt, lsLength len (densifyLS len cs mx) = lsLength len cs
   | [] => by simp [densifyLS]
-  | [a] => by simp [densifyLS, segs, densifySegs, lsLength]
+  | [a] => by simp [densifyLS, Interp.segs, densifySegs, lsLength]
   | a :: b :: rest => by
     have ih := densify_ls_length hl hh mx hmx (b :: rest)
     unfold lsLength at ih ⊢
     rw [segs_densifyLS_cons2, sumLen_append, densify_line_length hl hh a b mx hmx, ih]
-    simp [segs, sumLen]
+    simp [Interp.segs, sumLen]
 
 /-! ### the deprecated `line_interpolate_point` -/
 
@@ -577,16 +577,16 @@ theorem deprecated_eq_ratio {len : Len} (hl : LenAx len) (cs : List Pt) (f : Rat
       · rw [if_neg h0]; exact ⟨by norm_num, le_refl _⟩
   unfold lsLineInterpolatePoint
   simp only [hf']
-  by_cases hne : segs cs = []
+  by_cases hne : Interp.segs cs = []
   · rw [hne]
     match cs, hne with
-    | [], _ => simp [lipGo, lsPointAtRatioFromStart, lsPointAtDistanceFromStart, walk, segs]
+    | [], _ => simp [lipGo, lsPointAtRatioFromStart, lsPointAtDistanceFromStart, walk, Interp.segs]
     | [a], _ =>
-      simp [lipGo, lsPointAtRatioFromStart, lsPointAtDistanceFromStart, segs, lsLength, sumLen,
+      simp [lipGo, lsPointAtRatioFromStart, lsPointAtDistanceFromStart, Interp.segs, lsLength, sumLen,
         lineInterpolatePoint, lerp_zero]
   · have hd0 : 0 ≤ lsLength len cs * f' := mul_nonneg hL hf0.1
     have hd1 : lsLength len cs * f' ≤ lsLength len cs := by nlinarith [hf0.2]
-    obtain ⟨p, hp, hon⟩ := lipGo_onSegs hl (lsLength len cs * f') (segs cs) 0 hd0
+    obtain ⟨p, hp, hon⟩ := lipGo_onSegs hl (lsLength len cs * f') (Interp.segs cs) 0 hd0
       (by rw [sub_zero]; exact hd1) hne
     obtain ⟨q, hq, hon'⟩ := ls_distance_onSegs hl cs (lsLength len cs * f') hne hd0 hd1
     rw [hp]
@@ -600,7 +600,7 @@ repeated coordinate at fraction 0 gives `None` although the ratio form gives the
 theorem deprecated_pinned_witness :
     lsLineInterpolatePointPinned (fun a b => rabs (a.x - b.x) + rabs (a.y - b.y))
       [⟨0, 0⟩, ⟨0, 0⟩, ⟨1, 0⟩] 0 = none := by
-  simp [lsLineInterpolatePointPinned, lipGoPinned, segs, lsLength, sumLen, rabs]
+  simp [lsLineInterpolatePointPinned, lipGoPinned, Interp.segs, lsLength, sumLen, rabs]
 
 /-! ### locate inverts interpolate (LineString) -/
 
@@ -618,13 +618,13 @@ theorem locate_interpolate_ls_partial {len : Len} (hl : LenAx len) (cs : List Pt
   have hd1 : r * lsLength len cs ≤ lsLength len cs := by nlinarith
   unfold lsPointAtRatioFromStart lsPointAtDistanceFromStart at hp
   rw [if_neg (not_le.2 hd0)] at hp
-  match hw : walk len (segs cs) (r * lsLength len cs), hp with
+  match hw : walk len (Interp.segs cs) (r * lsLength len cs), hp with
   | none, _ =>
-    have := walk_none (segs cs) _ hd0 hw
+    have := walk_none (Interp.segs cs) _ hd0 hw
     exact absurd this (not_lt.2 hd1)
   | some (a, b, r'), hp =>
     simp only [Option.some.injEq] at hp
-    obtain ⟨pre, post, e, hr', hpos, hle⟩ := walk_some (segs cs) _ hd0 hw
+    obtain ⟨pre, post, e, hr', hpos, hle⟩ := walk_some (Interp.segs cs) _ hd0 hw
     have hlpos : 0 < len a b := lt_of_lt_of_le hpos hle
     have hab : a ≠ b := by
       intro h; rw [h, hl.self_zero] at hlpos; exact lt_irrefl _ hlpos
@@ -659,7 +659,7 @@ theorem locate_start (len : Len) (a : Pt) (rest : List Pt) :
   split
   · rfl
   · cases rest with
-    | nil => simp [segs, locateGo]
+    | nil => simp [Interp.segs, locateGo]
     | cons b rest =>
       have hz : segDistSq a a b = 0 := by
         by_cases hab : a = b
@@ -672,7 +672,7 @@ theorem locate_start (len : Len) (a : Pt) (rest : List Pt) :
         split
         · rfl
         · rw [clamp01_eq]; simp
-      simp only [segs, locateGo, hz, hfr, if_true, locateGo_done]
+      simp only [Interp.segs, locateGo, hz, hfr, if_true, locateGo_done]
       simp
 
 /-! ### on the line; polygons -/
@@ -746,10 +746,10 @@ private def exPath : List Pt := [⟨0, 0⟩, ⟨0, 0⟩, ⟨2, 0⟩, ⟨2, 3⟩]
 example : lsPointAtRatioFromStart l1 exPath (2 / 5) = lsPointAtRatioFromEnd l1 exPath (1 - 2 / 5) :=
   ratio_start_end l1_ax _ _
 example : lsPointAtDistanceFromStart l1 exPath 7 = some ⟨2, 3⟩ :=
-  ls_distance_clamp_hi l1_ax exPath 7 (by norm_num [exPath, lsLength, segs, sumLen, l1])
+  ls_distance_clamp_hi l1_ax exPath 7 (by norm_num [exPath, lsLength, Interp.segs, sumLen, l1])
 example : lsLineInterpolatePoint l1 exPath 0 = lsPointAtRatioFromStart l1 exPath 0 :=
   deprecated_eq_ratio l1_ax _ _
-example : ∀ s ∈ segs (densifyLS l1 exPath (3 / 2)), l1 s.1 s.2 ≤ 3 / 2 :=
+example : ∀ s ∈ Interp.segs (densifyLS l1 exPath (3 / 2)), l1 s.1 s.2 ≤ 3 / 2 :=
   densify_ls_pieces l1_ax l1_lerp _ (by norm_num) _
 example : lsLength l1 (densifyLS l1 exPath (3 / 2)) = lsLength l1 exPath :=
   densify_ls_length l1_ax l1_lerp _ (by norm_num) _
@@ -768,10 +768,10 @@ example : EarlierApart l1 [⟨0, 0⟩, ⟨2, 0⟩, ⟨2, 3⟩] 5 ⟨2, 3⟩ := b
   intro pre a b post e h1 h2 s hs
   match pre, e, hs with
   | [x], e, hs =>
-    simp only [segs, List.cons_append, List.nil_append, List.cons.injEq] at e
+    simp only [Interp.segs, List.cons_append, List.nil_append, List.cons.injEq] at e
     simp only [List.mem_singleton] at hs
     rw [hs, ← e.1]
     norm_num [segDistSq]
-  | x :: y :: z, e, _ => simp [segs] at e
+  | x :: y :: z, e, _ => simp [Interp.segs] at e
 
 end Geo.Proofs.C15
